@@ -80,12 +80,13 @@ func (eth *Ethernet) SerializeTo(b gopacket.SerializeBuffer, opts gopacket.Seria
 	copy(bytes, eth.DstMAC)
 	copy(bytes[6:], eth.SrcMAC)
 	if eth.Length != 0 || eth.EthernetType == EthernetTypeLLC {
+		if eth.EthernetType != EthernetTypeLLC {
+			return fmt.Errorf("ethernet type %v not compatible with length value %v", eth.EthernetType, eth.Length)
+		}
 		if opts.FixLengths {
 			eth.Length = uint16(len(payload))
 		}
-		if eth.EthernetType != EthernetTypeLLC {
-			return fmt.Errorf("ethernet type %v not compatible with length value %v", eth.EthernetType, eth.Length)
-		} else if eth.Length > 0x0600 {
+		if eth.Length > 0x0600 {
 			return fmt.Errorf("invalid ethernet length %v", eth.Length)
 		}
 		binary.BigEndian.PutUint16(bytes[12:], eth.Length)
